@@ -296,6 +296,7 @@ func runC05(c *Ctx) {
 		}
 	}
 	c05ZeroGuard(c, eb)
+	c.shared("R10", "C09/R3", "an operand that went through copyValue (argument, container element, assigned scalar) keeps its kind and payload: the operator tables are only right if a copied regex is still a regex, a copied null still null", keyHas("copy Value"), c09R3)
 	c05ShortCircuit(c, eb)
 	c05Concat(c, eb)
 	c05Is(c, eb)
